@@ -4,6 +4,7 @@ import (
 	"errors"
 	"fmt"
 	"html/template"
+	"reflect"
 	"strings"
 	"time"
 
@@ -294,4 +295,25 @@ func RunPoly(pc PolyCase) (string, error) {
 		sb.WriteString(out)
 	}
 	return sb.String(), nil
+}
+
+// CallStringFunc calls an exported helper function value with s as its first argument and zero values for any further
+// parameters, and returns its first result printed; going through reflection keeps the harness building when a change
+// widens the helper's signature.
+func CallStringFunc(fn interface{}, s string) string {
+	fv := reflect.ValueOf(fn)
+	ft := fv.Type()
+	args := make([]reflect.Value, ft.NumIn())
+	for i := range args {
+		if i == 0 {
+			args[i] = reflect.ValueOf(s).Convert(ft.In(0))
+			continue
+		}
+		args[i] = reflect.Zero(ft.In(i))
+	}
+	res := fv.Call(args)
+	if len(res) == 0 {
+		return ""
+	}
+	return fmt.Sprint(res[0].Interface())
 }
